@@ -171,14 +171,12 @@ def handleH (s : Setting) (depth : Nat) : String :=
   reply (carriedOut m) (carriedOut sp) "-"
 
 /-- `B <probe> <depth>`: a reflection-bridged Go function registered before Copy() and called on the
-    depth-th copy.  The wrapper (runtime.go:708) closes over the runtime `toValue` was called on and
-    converts the Go results with THAT runtime: on a copy the result's prototype is the template's
-    Array.prototype / Object.prototype (realm checks false), and a write through it lands in the
-    template (`leak`: the template then sees `[].c17leak === 1`). -/
-def handleB (probe : String) (depth : Nat) : String :=
+    depth-th copy.  The wrapper (runtime.go:708) converts arguments and results with the runtime of
+    the CALL (`c.runtime`), so the results belong to the copy: realm checks true at every depth, and
+    a write through a result's prototype stays in the copy (`leak`: the template sees undefined). -/
+def handleB (probe : String) (_depth : Nat) : String :=
   let ok := if probe = "leak" then "undefined" else "true"
-  let bad := if probe = "leak" then "1" else "false"
-  if depth = 0 then reply ok ok "-" else reply bad ok "bridged_func_realm"
+  reply ok ok "-"
 
 def handle (ws : List String) : String :=
   match ws with
